@@ -202,6 +202,11 @@ def _scan_expr(node, klass_methods, br, guarded, stack, where):
                 elif m not in ("_maybe_literal",):
                     raise TranslatorAbort("%s: call of self.%s which is not defined on the handler or its mixin" % (where, m))
                 continue
+            if f.attr == "is_readonly":
+                # the recognised guards (`if X.is_readonly(): raise`) never reach this point; the branch conditions
+                # of the model (Model/WebAuth.v `cond`) know nothing about read-only-ness
+                raise TranslatorAbort("%s: line %d: is_readonly() decides something other than a raising guard "
+                                      "(the dispatch branches of the model do not depend on it)" % (where, n.lineno))
             r = _recv(f.value)
             if r is None:
                 continue                      # call on a call result / literal: plumbing (d.addCallback chains etc.)
